@@ -470,6 +470,9 @@ class BPWorld(World):
                 return {"k": "gauge", "how": pick(r, ["compress_l2bp", "compress_l2bp_lazy"]), "opts": self._draw_opts(r)}
             return {"k": "lib", "entry": pick(r, ["class", "class", "func"]),
                     "opts": self._draw_opts(r), "strip": r.random() < 0.4,
+                    # a history of further read-outs / normalisers on the same
+                    # converged object (indices into the flavour's menu)
+                    "readouts": [r.randrange(64) for _ in range(r.choice([0, 0, 2, 3, 5]))],
                     "plan": self._draw_plan(S)}
         # configuration B
         ad = self.ad
@@ -645,7 +648,51 @@ class BPWorld(World):
             if not bool(ad.bp.converged) and not damping:
                 raise Violation(f"C14/not_converged:{fl}",
                                 f"run() did not report convergence on a tree after {maxit} iterations")
+            if op.get("readouts") and self.knobs["data_kind"] == "pos" and not damping and not cosine:
+                self._readout_history(ad, op["readouts"], z, tol * 10)
         self.note("lib", fl, op["entry"], True)
+
+    READOUTS = {
+        # value read-outs (must be exact on a tree whatever was called before)
+        # and the public normalisers, which must not change any later value
+        "D1BP": ["contract", "contract_gloop_expand", "contract_with_loops", "contract_loop_series_expansion",
+                 "normalize_message_pairs", "normalize_tensors", "contract_strip"],
+        "D2BP": ["contract", "contract_gloop_expand", "contract_loop_series_expansion",
+                 "normalize_message_pairs", "normalize_tensors", "contract_strip"],
+        "HD1BP": ["contract", "normalize_messages", "contract_strip"],
+        "HV1BP": ["contract", "contract_dense", "contract_strip"],
+        "L1BP": ["contract", "normalize_message_pairs", "contract_strip"],
+        "L2BP": ["contract", "normalize_message_pairs", "contract_strip"],
+    }
+
+    def _readout_history(self, ad, picks, z, tol):
+        fl = self.fl
+        menu = self.READOUTS[fl]
+        done = []
+        for pck in picks:
+            name = menu[pck % len(menu)]
+            bp = ad.bp
+            if name == "contract_strip":
+                kw = {"strip_exponent": True}
+                if fl == "HV1BP":
+                    kw["check_zero"] = False
+                st, val = self.call(lambda: bp.contract(**kw))
+                if st != "rejected":
+                    val = val[0] * 10.0 ** float(np.real(val[1]))
+            elif name == "contract" and fl == "HV1BP":
+                st, val = self.call(lambda: bp.contract(check_zero=False))
+            else:
+                st, val = self.call(lambda: getattr(bp, name)())
+            done.append(name)
+            if st == "rejected":
+                raise Violation(f"C14/readout_rejected:{fl}", f"{' -> '.join(done)}: {val!r}")
+            if name.startswith("normalize"):
+                continue
+            if not abs(complex(val) - z) <= tol * abs(z):
+                raise Violation(f"C14/readout_history:{fl}",
+                                f"{' -> '.join(done)} = {val} vs exact {z} on a tree "
+                                f"(rel {abs(complex(val) - z) / abs(z):.3g})")
+            self.stats.probe("readouts_after_history")
 
     def _lib_func(self, o, strip, tol_run, maxit):
         """Function entry points (they build the BP object themselves)."""
